@@ -4,6 +4,7 @@ import ast
 from ..core import AnalysisError, chain, src, body_walk, walk_no_nested, decorators, qual_of
 from ..cfg import CFG, Flow
 from ..locks import held, holds
+from ..sem import resolve as _resolve
 
 CONN = 'cassandra/connection.py'
 REACTORS = {
@@ -169,7 +170,7 @@ def check(chk):
             if nd.kind != 'stmt' or nd.ast is None:
                 continue
             for c in walk_no_nested(nd.ast):
-                if isinstance(c, ast.Call) and src(c.func) == 'self.error_all_requests' and c.args and 'ConnectionShutdown' in src(c.args[0]):
+                if isinstance(c, ast.Call) and src(c.func) == 'self.error_all_requests' and c.args and 'ConnectionShutdown' in src(_resolve(bodyfn, c.args[0])):
                     sts = list(flb.at(nd))
                     if sts and all(fa.knows('self.is_defunct') is False for fa, _c in sts):
                         found = True
@@ -188,6 +189,18 @@ def check(chk):
                 chk.judge(safe, 'C10.close', c, 'EventletConnection.close: %s.kill() only when it is not the running green thread' % w,
                           'close() kills the green thread it runs in (%s may be the current one): GreenletExit is raised inside close(), the socket stays open and '
                           'error_all_requests never runs - pending requests of a connection that failed in its own I/O loop are never failed' % w)
+        # ... and so do the continuous paging sessions, which are not in _requests once their first page arrived
+        found_cp = False
+        for nd in gb.stmt_nodes():
+            if nd.kind != 'stmt' or nd.ast is None:
+                continue
+            for c in walk_no_nested(nd.ast):
+                if isinstance(c, ast.Call) and src(c.func) == 'self.error_all_cp_sessions' and c.args:
+                    sts = list(flb.at(nd))
+                    if sts and all(fa.knows('self.is_defunct') is False for fa, _c in sts):
+                        found_cp = True
+        chk.judge(found_cp, 'C10.close', bodyfn, '%s: not defunct => error_all_cp_sessions(<connection error>)' % cname,
+                  'an explicit close() fails the pending requests but not the continuous paging sessions of the connection: their consumers are never told and wait for pages that cannot arrive')
         n_close += 1
         chk.judge(found, 'C10.close', bodyfn, '%s: not defunct => error_all_requests(ConnectionShutdown)' % cname,
                   'closing a live connection leaves its pending requests hanging')
